@@ -61,7 +61,7 @@ SEQ_OPS = ['refined', 'boundary', 'interfaces', 'slice', 'mask', 'reorder', 'der
 LOOKUP_MUTANTS = ['masked-offbyone', 'reorder-forward', 'derived-nocanon']
 CACHE_ACTIONS = ['Alloc', 'MkView', 'Mutate', 'Drop', 'CallBypass', 'CallHit', 'CallMiss']
 CACHE_TOGGLES = ['KeyStrides', 'Finalizer', 'CheckBases']
-LOCATE_ACTIONS = ['CallFree', 'CallFreeExtraArgs', 'CallWithArgs']
+LOCATE_ACTIONS = ['CallFree', 'CallFreeExtraArgs', 'CallWithArgs', 'Run']
 MUTANT_INVARIANT = dict(rewrite='MapPreserved', seq='LookupCorrect', cache='Transparent', locate='ImageOK')
 
 
@@ -85,7 +85,7 @@ def plan(tier, seed):
     jobs['seq'] = ('SeqNesting', dict(cfg='SeqNesting.cfg', workers=4), True)
     jobs['seq-struct'] = ('SeqNesting', dict(cfg='SeqNesting_struct.cfg', workers=2), True)
     if tier == 'quick':
-        jobs['seq-sim'] = ('SeqNesting', dict(cfg='SeqNesting_sim.cfg', simulate=dict(num=6), depth=6, seed=seed, workers=2, timeout=600), False)
+        jobs['seq-sim'] = ('SeqNesting', dict(cfg='SeqNesting_sim.cfg', simulate=dict(num=5), depth=6, seed=seed, workers=2, timeout=600), False)
         muts = [LOOKUP_MUTANTS[seed % len(LOOKUP_MUTANTS)]]
     else:
         jobs['rewrite-thorough'] = ('ChainRewrite', dict(cfg='ChainRewrite_thorough.cfg', workers=8, timeout=1500, heap='8g'), True)
@@ -103,9 +103,9 @@ def plan(tier, seed):
         jobs['cache'] = ('ApplyCache', dict(cfg='ApplyCache_thorough.cfg', coverage=True, workers=1, timeout=1500), True)
         jobs['locate'] = ('Locate', dict(cfg='Locate_thorough.cfg', coverage=True, workers=8, timeout=1500, heap='8g'), True)
         jobs['locate-wide'] = ('Locate', dict(cfg='Locate_wide.cfg', workers=4, timeout=1500), True)
-    nc, nl = (240, 70) if tier == 'quick' else (3000, 800)
+    nc, nl = (240, 60) if tier == 'quick' else (3000, 800)
     jobs['cache-sim'] = ('ApplyCache', dict(cfg='ApplyCache_sim.cfg', simulate=dict(num=nc), depth=13, seed=seed, workers=1, timeout=800), False)
-    jobs['locate-sim'] = ('Locate', dict(cfg='Locate_sim.cfg', simulate=dict(num=nl), depth=4, seed=seed, workers=1, timeout=800), False)
+    jobs['locate-sim'] = ('Locate', dict(cfg='Locate_sim.cfg', simulate=dict(num=nl), depth=7, seed=seed, workers=1, timeout=800), False)
     for tog in ([CACHE_TOGGLES[seed % len(CACHE_TOGGLES)]] if tier == 'quick' else CACHE_TOGGLES):
         jobs['cache-mutant-' + tog] = ('ApplyCache', dict(cfg_text=_cfg_with('ApplyCache_mutant.cfg', **{tog: 'FALSE'}), workers=1), True)
     jobs['locate-mutant'] = ('Locate', dict(cfg='Locate_mutant.cfg', workers=1), True)
@@ -130,7 +130,7 @@ def run(rep):
     rng = random.Random(rep.seed)
     jobs = plan(rep.tier, rep.seed)
     rep.constants['ChainRewrite'] = 'references of dimension <= 3 (simplices and tensor products); chains of <= {} items exhaustively{}'.format(
-        '2 (<= 3 for dimension <= 2)' if quick else 3, '' if quick else ', <= 6 items by simulation')
+        '2 (<= 3 for dimension <= 2)' if quick else 3, '; replay of all canonical / uppermost and half of the promote behaviours' if quick else ', <= 6 items by simulation')
     rep.constants['SeqNesting'] = 'bases line/square/cube (periodic variants), Index with simplex/mixed/prism references; <= {} topology operations, <= {} wrappers exhaustively; simulation to 2 operations + 3 wrappers; <= 16 elements; tails of <= 2 items'.format(*((1, 1) if quick else (2, 2)))
     rep.constants['ApplyCache'] = ('2 allocations on 2 addresses (freed addresses are re-used), 3 arrays, 2 items, views a[::2] a[:2] a[:2].T a[1::2] a[1:3]{} '
                                    'of a 4x2 buffer, frozen / writeable / read-only view of writeable, <= {} operations exhaustively (one route per distinct state and last call); '
@@ -186,6 +186,13 @@ def run(rep):
                 if k not in seen:
                     seen.add(k)
                     behaviours.append(b)
+    if quick:
+        # promote(chain, nd) = canonical(prefix) + uppermost(suffix) is replayed for every nd and makes up two thirds of the
+        # behaviours: the quick tier replays every canonical / uppermost behaviour and a seed dependent half of the promote ones
+        behaviours.sort(key=lambda b: repr((b['alg'], b['nd'], ci.key(b['chain']))))
+        npromote = sum(b['alg'] == 'promote' for b in behaviours)
+        behaviours = [b for n, b in enumerate(behaviours) if b['alg'] != 'promote' or n % 2 == rep.seed % 2]
+        rep.extra['rewrite_promote_behaviours_left_to_thorough'] = npromote - sum(b['alg'] == 'promote' for b in behaviours)
     chunks = [behaviours[i::16] for i in range(16)]
     outs = exprs.pmap(_replay_chunk, chunks, chunksize=1)
     diverged = 0
@@ -335,8 +342,8 @@ def _replay_cache(rep, results):
     nb = len(c11_cache.BINDINGS)
     jobs = [dict(hist=h, binding=c11_cache.BINDINGS[(n + rep.seed) % nb], origin=('flags', 'arraydata')[(n // nb) % 2]) for n, h in enumerate(cover)]
     jobs += [dict(hist=h, binding=b, origin=('flags', 'arraydata')[(n + k) % 2]) for n, h in enumerate(walks) for k, b in enumerate(c11_cache.BINDINGS)]
-    chunks = [jobs[i::32] for i in range(32)]
-    outs = exprs.pmap(c11_cache.replay_chunk, chunks, chunksize=1)
+    chunks = [jobs[i::16] for i in range(16)]
+    outs = exprs.pmap(c11_cache.replay_chunk, chunks, nproc=8, chunksize=1)
     stats = collections.Counter()
     for chunk, out in zip(chunks, outs):
         if 'harness_error' in out:
@@ -367,9 +374,9 @@ def _replay_locate(rep, results):
     relevant = sorted(results['locate'].emitted, key=lambda b: json.dumps(b, sort_keys=True))
     if not relevant:
         raise RuntimeError('Locate: the exhaustive run emitted no memo-relevant history')
-    jobs = c11_locate.jobs_for(behaviours, rep.seed)
+    jobs = c11_locate.jobs_for(behaviours, rep.seed, every_other=rep.tier == 'quick')
     jobs += [dict(beh=b, variant=('struct', 'groups')[(n + rep.seed) % 4 == 3], kw=('tol', 'eps')[n % 2]) for n, b in enumerate(relevant)]
-    outs = exprs.pmap(c11_locate.replay, jobs, chunksize=2)
+    outs = exprs.pmap(c11_locate.replay, jobs, nproc=8, chunksize=2)
     stats = collections.Counter()
     for job, out in zip(jobs, outs):
         if 'harness_error' in out:
